@@ -131,6 +131,8 @@ class Concretiser:
         if c in ("drop", "cut"):
             send = rng.choice(["DELE 1", "QUI", "RETR", "D", "QUIT\r", "STAT "]) if c == "cut" else ""
             return {"kind": c, "abs": dict(a), "send": send}
+        if c == "idle":
+            return {"kind": "idle", "abs": dict(a)}
         if c == "connect":
             return {"kind": "connect", "abs": dict(a)}
         if c == "deliver":
@@ -267,7 +269,15 @@ def c13(run, args):
             return sts
         return f
 
-    beh = behaviours_from(run, tour, stores_for(tour, both), "tour")
+    # (4) sessions that the server itself ends by its idle timeout (300 ms here) with deletions pending
+    idle = run.generate("GenPop3", gen_cfg(["dele", "rset", "idle", "stat"], 3 if quick else 4, "bfs", argkinds=("valid", "marked"),
+                                           maxid=3, initcounts=(2,) if quick else (3,), loggedin=True), workers=4)
+    idle = [x for x in idle if any(a["c"] == "idle" for a in x) and any(a["c"] == "dele" for a in x)]
+    idle = idle[:40 if quick else 400]
+    ib = behaviours_from(run, idle, rot, "idle")
+    for b in ib:
+        b["srv_timeout_ms"] = 300
+    beh = ib + behaviours_from(run, tour, stores_for(tour, both), "tour")
     beh += behaviours_from(run, bfs, stores_for(bfs, rot), "bfs")
     beh += behaviours_from(run, sim, stores_for(sim, rot if quick else both), "sim")
     run.cov["samples"] = [tour[len(tour) // 2], bfs[len(bfs) // 2], sim[0][:16]] if tour and bfs and sim else []
